@@ -6,6 +6,8 @@ pub mod c07;
 pub mod c08;
 pub mod c09;
 pub mod c12;
+pub mod c13;
+pub mod c14;
 pub mod c15;
 pub mod c16;
 pub mod c18;
@@ -24,6 +26,8 @@ pub fn registry() -> Vec<PropEntry> {
 		PropEntry { id: "C08", level: "exploration", check: c08::check, replay: c08::replay },
 		PropEntry { id: "C09", level: "fault_enumeration", check: c09::check, replay: c09::replay },
 		PropEntry { id: "C12", level: "exploration", check: c12::check, replay: c12::replay },
+		PropEntry { id: "C13", level: "exploration", check: c13::check, replay: c13::replay },
+		PropEntry { id: "C14", level: "exploration", check: c14::check, replay: c14::replay },
 		PropEntry { id: "C15", level: "exploration", check: c15::check, replay: c15::replay },
 		PropEntry { id: "C16", level: "exploration", check: c16::check, replay: c16::replay },
 		PropEntry { id: "C18", level: "exploration", check: c18::check, replay: c18::replay },
